@@ -4,7 +4,9 @@
 (* DocTable is transcribed from the doc comment of DefaultErrorRenderer    *)
 (* (the documented contract), not from httpgrpc/codes.go.  A case is a     *)
 (* status code returned by a unary handler, whether the request's own      *)
-(* context was cancelled, and which error renderer the server uses; the    *)
+(* context was cancelled, whether a GRPC-Timeout the request carried has   *)
+(* expired on the server by then (the request itself still alive: that is  *)
+(* not a client that went away), which error renderer the server uses; the *)
 (* observed outcome is the recorded HTTP reply and the code the real       *)
 (* client derives from that reply.  A second family of cases feeds the     *)
 (* client every HTTP status 100..599 without the X-GRPC-Status header.     *)
@@ -22,12 +24,14 @@ DocTable(c) ==
     [] c = 12 -> 501 [] c = 13 -> 500 [] c = 14 -> 503 [] c = 15 -> 500
     [] OTHER -> 500
 
-ServerCases == [fam : {"server"}, code : Codes, cancelled : BOOLEAN, renderer : Renderers, status : {0}]
-ClientCases == [fam : {"client"}, code : {0}, cancelled : {FALSE}, renderer : {"none"}, status : 100..599]
+ServerCases == [fam : {"server"}, code : Codes, cancelled : BOOLEAN, expired : BOOLEAN, renderer : Renderers, status : {0}]
+ClientCases == [fam : {"client"}, code : {0}, cancelled : {FALSE}, expired : {FALSE}, renderer : {"none"}, status : 100..599]
 Cases == ServerCases \cup ClientCases
 
 V(ok, why) == IF ok THEN {} ELSE {why}
 
+\* (499 "client closed request" is for a request whose own context was
+\* cancelled; an expired GRPC-Timeout on a live request is not that)
 \* o: the case fields plus  http (status of the recorded reply), hdr (code in
 \* X-GRPC-Status, -2 if the header is absent), client (code of the client's
 \* error, 0 = nil error), panicked
